@@ -56,6 +56,8 @@ pub struct DictOpts {
     /// every other user lexicon uses parts of speech of the system dictionary only (its compiled image then has an
     /// empty POS block, as the dictionaries of the first user-dictionary format had none at all)
     pub system_pos_user_layers: bool,
+    /// user-dictionary rows whose declared cost is -32768: the loader replaces it by an estimate (Lexicon::update_cost)
+    pub auto_cost: bool,
 }
 
 impl Default for DictOpts {
@@ -77,6 +79,7 @@ impl Default for DictOpts {
             no_symbol_pos: false,
             single_unit_splits: false,
             system_pos_user_layers: false,
+            auto_cost: true,
         }
     }
 }
@@ -387,6 +390,9 @@ pub fn gen_user(rng: &mut Rng, opts: &DictOpts, m: &Matrix, system: &Lexicon, la
             &p,
         );
         gen_forms(rng, &mut e, opts);
+        if opts.auto_cost && rng.chance(1, 6) {
+            e.cost = i16::MIN;
+        }
         if opts.synonyms && rng.chance(1, 5) {
             e.synonyms.push((layer * 1000 + i) as u32);
         }
